@@ -194,6 +194,29 @@ fn inv_walk(n: &XmlNode, bad: &mut Vec<String>, seen: &mut Vec<usize>, depth: us
     }
 }
 
+fn snapshot(st: &St) -> String {
+    let mut seen: Vec<usize> = vec![];
+    let mut s = dump(st, &st.doc.as_node(), 0, &mut seen);
+    for n in st.handles.iter().flatten() {
+        if seen.contains(&n.id()) {
+            continue;
+        }
+        // detached roots only (a node whose parent is alive is dumped with its parent)
+        if n.parent_node().is_some() {
+            continue;
+        }
+        if let XmlNode::Attribute(a) = n {
+            // an attribute owned by an element is dumped with that element
+            if a.owner_element().is_some() {
+                continue;
+            }
+        }
+        s.push_str(" ~ ");
+        s.push_str(&dump(st, n, 0, &mut seen));
+    }
+    s
+}
+
 fn monitors(st: &St, exprs: &[String]) -> String {
     let mut bad: Vec<String> = vec![];
     let mut seen: Vec<usize> = vec![];
@@ -291,6 +314,9 @@ fn monitors(st: &St, exprs: &[String]) -> String {
             let rt = if a == b { "ok".to_string() } else { format!("BAD(reparsed differs: {} vs {} text={})", a, b, e(&text)) };
             let mut qbad: Vec<String> = vec![];
             if a == b {
+                // C19: evaluating a query changes nothing in the document (tree shape, node identities, segmentation
+                // of character data): the full snapshot before and after the queries must be the same
+                let before = snapshot(st);
                 for ex in exprs {
                     let la = crate::ops_xpath::Locator::new_merged(&st.doc);
                     let lb = crate::ops_xpath::Locator::new_merged(&d2);
@@ -305,6 +331,10 @@ fn monitors(st: &St, exprs: &[String]) -> String {
                     if r1 != r2 {
                         qbad.push(format!("{}: edited {} reparsed {}", e(ex), r1, r2));
                     }
+                }
+                let after = snapshot(st);
+                if before != after {
+                    qbad.push(format!("SIDE-EFFECT the queries changed the document: {} -> {}", before, after));
                 }
             }
             (rt, if qbad.is_empty() { "ok".to_string() } else { format!("BAD({})", qbad.join(";")) })
@@ -631,28 +661,6 @@ pub fn dom(args: &[String]) -> String {
     let root = doc.as_node();
     st.number(&root, 0);
     let mut out: Vec<String> = vec![];
-    let snapshot = |st: &St| -> String {
-        let mut seen: Vec<usize> = vec![];
-        let mut s = dump(st, &st.doc.as_node(), 0, &mut seen);
-        for n in st.handles.iter().flatten() {
-            if seen.contains(&n.id()) {
-                continue;
-            }
-            // detached roots only (a node whose parent is alive is dumped with its parent)
-            if n.parent_node().is_some() {
-                continue;
-            }
-            if let XmlNode::Attribute(a) = n {
-                // an attribute owned by an element is dumped with that element
-                if a.owner_element().is_some() {
-                    continue;
-                }
-            }
-            s.push_str(" ~ ");
-            s.push_str(&dump(st, n, 0, &mut seen));
-        }
-        s
-    };
     out.push(format!("init {{{}}} {}", snapshot(&st), monitors(&st, &exprs)));
     for op in &args[2..] {
         let before = st.handles.len();
